@@ -71,10 +71,15 @@ func checkNegotiate(c negCase) []vf.Finding {
 	if err != nil {
 		return []vf.Finding{vf.F("ntlm.CreateNegotiateMessage", "error", "%v", err)}
 	}
+	return checkNegotiateMsg("ntlm.CreateNegotiateMessage", msg, c)
+}
+
+// checkNegotiateMsg judges a NEGOTIATE message that who built for the names in c.
+func checkNegotiateMsg(who string, msg []byte, c negCase) []vf.Finding {
 	n, problems := nlmp.ParseNegotiate(msg)
 	var fs []vf.Finding
 	for _, p := range problems {
-		fs = append(fs, vf.F("ntlm.CreateNegotiateMessage", "negotiate-structure-invalid", "%s (domain %q workstation %q unicode %v)", p, c.Domain, c.Workstation, c.Unicode))
+		fs = append(fs, vf.F(who, "negotiate-structure-invalid", "%s (domain %q workstation %q unicode %v)", p, c.Domain, c.Workstation, c.Unicode))
 	}
 	if n == nil || len(problems) > 0 {
 		return fs
@@ -82,7 +87,7 @@ func checkNegotiate(c negCase) []vf.Finding {
 	uni := n.Flags&nlmp.FlagUnicode != 0
 	oem := n.Flags&nlmp.FlagOEM != 0
 	if uni != c.Unicode || oem == c.Unicode {
-		fs = append(fs, vf.F("ntlm.CreateNegotiateMessage", "charset-flags-differ-from-request", "flags %#x for unicode=%v", n.Flags, c.Unicode))
+		fs = append(fs, vf.F(who, "charset-flags-differ-from-request", "flags %#x for unicode=%v", n.Flags, c.Unicode))
 	}
 	// NEGOTIATE names are always OEM on the wire per MS-NLMP 2.2.1.1 ("DomainName ... in OEM character set");
 	// the library writes them in the charset it announces, which the property words as "the negotiated
@@ -92,14 +97,14 @@ func checkNegotiate(c negCase) []vf.Finding {
 		name string
 	}{{n.Domain, c.Domain}, {n.Workstation, c.Workstation}} {
 		if !(sameName(f.fld.Data, f.name, c.Unicode, true) || sameName(f.fld.Data, f.name, false, true)) {
-			fs = append(fs, vf.F("ntlm.CreateNegotiateMessage", "name-bytes-differ-from-charset-encoding", "%s: payload %x for %q (unicode %v)", f.fld.Name, f.fld.Data, f.name, c.Unicode))
+			fs = append(fs, vf.F(who, "name-bytes-differ-from-charset-encoding", "%s: payload %x for %q (unicode %v)", f.fld.Name, f.fld.Data, f.name, c.Unicode))
 		}
 	}
 	if n.Flags&nlmp.FlagVersion != 0 && len(msg) < 40 {
-		fs = append(fs, vf.F("ntlm.CreateNegotiateMessage", "version-flag-without-version", "len %d", len(msg)))
+		fs = append(fs, vf.F(who, "version-flag-without-version", "len %d", len(msg)))
 	}
 	if int(n.Domain.Len)+int(n.Workstation.Len)+40 != len(msg) {
-		fs = append(fs, vf.F("ntlm.CreateNegotiateMessage", "bytes-not-designated-by-any-field", "message %d bytes, header 40 + payloads %d", len(msg), int(n.Domain.Len)+int(n.Workstation.Len)))
+		fs = append(fs, vf.F(who, "bytes-not-designated-by-any-field", "message %d bytes, header 40 + payloads %d", len(msg), int(n.Domain.Len)+int(n.Workstation.Len)))
 	}
 	return fs
 }
@@ -110,6 +115,44 @@ func TestNegotiate(t *testing.T) {
 		u := rapid.Bool().Draw(t, "unicode")
 		return negCase{genName(t, "domain", u), genName(t, "ws", u), u}
 	}, checkNegotiate, func(c negCase) bool { return c.Domain != "" && c.Workstation != "" })
+}
+
+// The NEGOTIATE message as a client gets it: from an AuthContext, wrapped in a NegTokenInit. The same
+// structure rules apply to the message inside, and its two descriptors designate the context's domain and
+// workstation (not each other's, nor the user name or the password).
+type negTokCase struct {
+	Domain      string `json:"domain"`
+	User        string `json:"user"`
+	Password    string `json:"password"`
+	Workstation string `json:"workstation"`
+	Unicode     bool   `json:"unicode"`
+}
+
+func checkNegotiateToken(c negTokCase) []vf.Finding {
+	const who = "AuthContext.CreateNegotiateToken"
+	ctx := spnego.NewAuthContext(spnego.AuthTypeNTLM, c.Domain, c.User, c.Password, c.Workstation, c.Unicode)
+	wire, err := ctx.CreateNegotiateToken()
+	if err != nil {
+		return []vf.Finding{vf.F(who, "error", "%v", err)}
+	}
+	fs := checkOuter(who, wire)
+	msg, err := spnego.ExtractNTLMToken(wire)
+	if err != nil {
+		return append(fs, vf.F(who, "output-token-not-extractable", "%v", err))
+	}
+	return append(fs, checkNegotiateMsg(who, msg, negCase{c.Domain, c.Workstation, c.Unicode})...)
+}
+
+func TestNegotiateToken(t *testing.T) {
+	s := vf.Begin(t, P, "negotiate-token")
+	vf.Rapid(s, vf.N(4000, 60000), func(t *rapid.T) negTokCase {
+		u := rapid.Bool().Draw(t, "unicode")
+		return negTokCase{genName(t, "domain", u), genName(t, "user", u), alpha.String(t, "pw", 12, ""), genName(t, "ws", u), u}
+	}, checkNegotiateToken, func(c negTokCase) bool {
+		// the four strings are told apart by their payloads (names are compared modulo case)
+		d, w := alpha.UpperString(c.Domain), alpha.UpperString(c.Workstation)
+		return d != "" && w != "" && d != w && d != alpha.UpperString(c.User) && w != alpha.UpperString(c.User)
+	})
 }
 
 // ---- CHALLENGE parsing and AUTHENTICATE structure --------------------------------------------------
@@ -129,6 +172,10 @@ type chalCase struct {
 	Gap0            vf.Hex `json:"gap0"`
 	Gap1            vf.Hex `json:"gap1"`
 	Tail            vf.Hex `json:"tail"`
+	// by how much the MaxLen slot of each descriptor exceeds Len (MS-NLMP 2.2.1.2: MaxLen "SHOULD be set to"
+	// Len "and MUST be ignored on receipt"); Len+extra is capped at 65535 and may run past the message
+	NameMaxExtra int `json:"name_maxlen_extra,omitempty"`
+	InfoMaxExtra int `json:"info_maxlen_extra,omitempty"`
 	// identity for the AUTHENTICATE built from this challenge
 	User, Password, Domain, Workstation string
 }
@@ -152,9 +199,22 @@ func (c chalCase) build() (*nlmp.Challenge, []nlmp.AvPair) {
 	return ch, pairs
 }
 
-func checkChallenge(c chalCase) []vf.Finding {
+// wire is the CHALLENGE message of the case: the reference builder's layout with the MaxLen slots raised.
+func (c chalCase) wire() (*nlmp.Challenge, []nlmp.AvPair, []byte) {
 	ch, pairs := c.build()
-	wire := ch.Build()
+	b := ch.Build()
+	for _, d := range []struct{ at, extra int }{{12, c.NameMaxExtra}, {40, c.InfoMaxExtra}} {
+		if d.extra > 0 {
+			l := int(b[d.at]) | int(b[d.at+1])<<8
+			m := min(l+d.extra, 65535)
+			b[d.at+2], b[d.at+3] = byte(m), byte(m>>8)
+		}
+	}
+	return ch, pairs, b
+}
+
+func checkChallenge(c chalCase) []vf.Finding {
+	ch, pairs, wire := c.wire()
 	got, err := ntlm.ParseChallengeMessage(append([]byte{}, wire...))
 	if err != nil || got == nil {
 		return []vf.Finding{vf.F("ntlm.ParseChallengeMessage", "well-formed-challenge-rejected", "%v; wire %x", err, wire[:56])}
@@ -238,6 +298,18 @@ func genChal(t *rapid.T) chalCase {
 		return rapid.SliceOfN(rapid.Byte(), n, n).Draw(t, label)
 	}
 	c.Gap0, c.Gap1, c.Tail = gap("gap0"), gap("gap1"), gap("tail")
+	maxExtra := func(label string) int {
+		switch rapid.IntRange(0, 5).Draw(t, label+"Class") {
+		case 3:
+			return rapid.IntRange(1, 2).Draw(t, label)
+		case 4:
+			return rapid.IntRange(1, 64).Draw(t, label)
+		case 5:
+			return rapid.IntRange(1, 65535).Draw(t, label)
+		}
+		return 0
+	}
+	c.NameMaxExtra, c.InfoMaxExtra = maxExtra("nameMaxExtra"), maxExtra("infoMaxExtra")
 	c.User, c.Domain, c.Workstation = genName(t, "user", unicode), genName(t, "domain", unicode), genName(t, "ws", unicode)
 	c.Password = alpha.String(t, "pw", 12, "")
 	return c
@@ -253,8 +325,8 @@ func TestChallengeParse(t *testing.T) {
 }
 
 func checkAuthenticate(c chalCase) []vf.Finding {
-	ch, _ := c.build()
-	parsed, err := ntlm.ParseChallengeMessage(ch.Build())
+	_, _, wire := c.wire()
+	parsed, err := ntlm.ParseChallengeMessage(wire)
 	if err != nil {
 		return []vf.Finding{vf.F("ntlm.ParseChallengeMessage", "well-formed-challenge-rejected", "%v", err)}
 	}
@@ -439,46 +511,94 @@ func TestSpnegoRandom(t *testing.T) {
 
 // ---- end to end: ProcessChallengeToken ----------------------------------------------------------------
 
-func checkProcess(c chalCase) []vf.Finding {
-	ch, _ := c.build()
-	inner := ch.Build()
+// identity is what an AuthContext is created with.
+type identity struct {
+	User, Password, Domain, Workstation string
+}
+
+// processOnce hands the CHALLENGE of c, wrapped in a NegTokenResp, to ctx and judges the AUTHENTICATE token
+// that comes back against that challenge and the identity the context was created with. pre is put in front
+// of the finding kinds.
+func processOnce(ctx *spnego.AuthContext, c chalCase, id identity, pre string) []vf.Finding {
+	const who = "AuthContext.ProcessChallengeToken"
+	_, _, inner := c.wire()
 	wrapped, err := spnego.CreateNegTokenResp(spnego.AcceptIncomplete, spnego.NtlmOID, inner)
 	if err != nil {
 		return []vf.Finding{vf.F("spnego.CreateNegTokenResp", "error", "%v", err)}
 	}
-	ctx := spnego.NewAuthContext(spnego.AuthTypeNTLM, c.Domain, c.User, c.Password, c.Workstation, c.Flags&nlmp.FlagUnicode != 0)
 	out, err := ctx.ProcessChallengeToken(wrapped)
 	if err != nil {
-		return []vf.Finding{vf.F("AuthContext.ProcessChallengeToken", "well-formed-challenge-token-rejected", "%v", err)}
+		return []vf.Finding{vf.F(who, pre+"well-formed-challenge-token-rejected", "%v", err)}
 	}
-	fs := checkOuter("AuthContext.ProcessChallengeToken", out)
+	var fs []vf.Finding
+	for _, f := range checkOuter(who, out) {
+		f.Kind = pre + f.Kind
+		fs = append(fs, f)
+	}
 	auth, err := spnego.ExtractNTLMToken(out)
 	if err != nil {
-		return append(fs, vf.F("AuthContext.ProcessChallengeToken", "output-token-not-extractable", "%v", err))
+		return append(fs, vf.F(who, pre+"output-token-not-extractable", "%v", err))
 	}
 	a, problems := nlmp.ParseAuthenticate(auth)
 	for _, p := range problems {
-		fs = append(fs, vf.F("AuthContext.ProcessChallengeToken", "authenticate-structure-invalid", "%s", p))
+		fs = append(fs, vf.F(who, pre+"authenticate-structure-invalid", "%s", p))
 	}
 	if a == nil || len(problems) > 0 {
 		return fs
 	}
 	if ctx.NTLMChallenge == nil || !bytes.Equal(ctx.NTLMChallenge.ServerChallenge[:], c.ServerChallenge) {
-		fs = append(fs, vf.F("AuthContext.ProcessChallengeToken", "challenge-not-recorded", "%v", ctx.NTLMChallenge))
+		fs = append(fs, vf.F(who, pre+"challenge-not-recorded", "%v, processed server challenge %x", ctx.NTLMChallenge, []byte(c.ServerChallenge)))
 	}
+	unicode := c.Flags&nlmp.FlagUnicode != 0
+	for _, f := range []struct {
+		fld  nlmp.Field
+		name string
+		fold bool
+	}{{a.Domain, id.Domain, true}, {a.User, id.User, false}, {a.Workstation, id.Workstation, true}} {
+		if !sameName(f.fld.Data, f.name, unicode, f.fold) {
+			fs = append(fs, vf.F(who, pre+"name-bytes-differ-from-charset-encoding", "%s: payload %x for %q (unicode %v)", f.fld.Name, f.fld.Data, f.name, unicode))
+		}
+	}
+	// the response answers the challenge that was processed
 	if c.Flags&nlmp.FlagExtSec != 0 {
-		unicode := c.Flags&nlmp.FlagUnicode != 0
-		if unicode || isASCII(c.User+c.Domain) {
+		if unicode || isASCII(id.User+id.Domain) {
 			user, domain := string(a.User.Data), string(a.Domain.Data)
 			if unicode {
 				user, domain = decodeUTF16(a.User.Data), decodeUTF16(a.Domain.Data)
 			}
-			for _, p := range nlmp.VerifyNTLMv2(refcrypto.NT(c.Password), user, domain, c.ServerChallenge, a.NT.Data, nil) {
-				fs = append(fs, vf.F("AuthContext.ProcessChallengeToken", "v2-response-does-not-verify", "%s", p))
+			for _, p := range nlmp.VerifyNTLMv2(refcrypto.NT(id.Password), user, domain, c.ServerChallenge, a.NT.Data, nil) {
+				fs = append(fs, vf.F(who, pre+"v2-response-does-not-verify", "server challenge %x: %s", []byte(c.ServerChallenge), p))
 			}
+		}
+	} else {
+		nt := refcrypto.NT(id.Password)
+		if want := refcrypto.DESL(nt[:], c.ServerChallenge); !bytes.Equal(a.NT.Data, want) {
+			fs = append(fs, vf.F(who, pre+"v1-response-does-not-verify", "server challenge %x: NtChallengeResponse %x, DESL(NT hash, challenge) = %x", []byte(c.ServerChallenge), a.NT.Data, want))
 		}
 	}
 	return fs
+}
+
+func (c chalCase) identity() identity { return identity{c.User, c.Password, c.Domain, c.Workstation} }
+
+func checkProcess(c chalCase) []vf.Finding {
+	ctx := spnego.NewAuthContext(spnego.AuthTypeNTLM, c.Domain, c.User, c.Password, c.Workstation, c.Flags&nlmp.FlagUnicode != 0)
+	return processOnce(ctx, c, c.identity(), "")
+}
+
+// One context, two challenges in a row (a server may answer a retried session setup with a fresh challenge):
+// the second AUTHENTICATE answers the second challenge and is as well-formed as the first.
+type twiceCase struct {
+	First  chalCase `json:"first"`  // also supplies the identity of the context
+	Second chalCase `json:"second"` // its identity fields are not used
+}
+
+func checkProcessTwice(c twiceCase) []vf.Finding {
+	ctx := spnego.NewAuthContext(spnego.AuthTypeNTLM, c.First.Domain, c.First.User, c.First.Password, c.First.Workstation, c.First.Flags&nlmp.FlagUnicode != 0)
+	if fs := processOnce(ctx, c.First, c.First.identity(), ""); len(fs) > 0 {
+		return fs
+	}
+	return processOnce(ctx, c.Second, c.First.identity(), "reused-context-")
 }
 
 func decodeUTF16(b []byte) string {
@@ -499,6 +619,15 @@ func decodeUTF16(b []byte) string {
 func TestProcessChallenge(t *testing.T) {
 	s := vf.Begin(t, P, "process-challenge")
 	vf.Rapid(s, vf.N(3000, 50000), genChal, checkProcess, chalNontrivial)
+}
+
+func TestProcessChallengeTwice(t *testing.T) {
+	s := vf.Begin(t, P, "process-challenge-twice")
+	vf.Rapid(s, vf.N(2000, 40000), func(t *rapid.T) twiceCase {
+		c := twiceCase{First: genChal(t), Second: genChal(t)}
+		c.Second.User, c.Second.Password, c.Second.Domain, c.Second.Workstation = "", "", "", ""
+		return c
+	}, checkProcessTwice, func(c twiceCase) bool { return !bytes.Equal(c.First.ServerChallenge, c.Second.ServerChallenge) })
 }
 
 var _ = fmt.Sprintf
